@@ -188,6 +188,19 @@ func dpr(data []byte) string {
 	return "ok " + x(offer) + " " + x(nat) + " " + x(relay)
 }
 
+// the poll response with the failure reason visible: for a failure status the decoder returns errors.New(status)
+// together with a non-empty NAT type; every other error comes with empty strings
+func dprr(data []byte) string {
+	offer, nat, relay, err := messages.DecodePollResponseWithRelayURL(data)
+	if err != nil {
+		if nat != "" {
+			return "reason " + x(err.Error()) + " " + x(nat) + " " + x(relay)
+		}
+		return "err"
+	}
+	return "ok " + x(offer) + " " + x(nat) + " " + x(relay)
+}
+
 func dpr0(data []byte) string {
 	offer, nat, err := messages.DecodePollResponse(data)
 	if err != nil {
@@ -241,7 +254,7 @@ func encode(op string, a []string) []byte {
 		return must(messages.EncodeProxyPollRequestWithRelayPrefix(str(a[0]), str(a[1]), str(a[2]), atoi(a[3]), str(a[4])))
 	case "ppr0":
 		return must(messages.EncodeProxyPollRequest(str(a[0]), str(a[1]), str(a[2]), atoi(a[3])))
-	case "pr":
+	case "pr", "prr":
 		return must(messages.EncodePollResponseWithRelayURL(str(a[0]), a[1] == "1", str(a[2]), str(a[3]), str(a[4])))
 	case "pr0":
 		return must(messages.EncodePollResponse(str(a[0]), a[1] == "1", str(a[2])))
@@ -259,8 +272,29 @@ func encode(op string, a []string) []byte {
 	panic("badcase: op " + op)
 }
 
+// Every encoder result is the caller's: a later call of any encoder must not change it.  The driver keeps the last
+// few results with a private copy and compares them after every further encode.
+type heldEnc struct{ b, copy []byte }
+
+var held []heldEnc
+
+func encodeHeld(op string, a []string) ([]byte, string) {
+	b := encode(op, a)
+	for _, h := range held {
+		if !bytes.Equal(h.b, h.copy) {
+			held = nil
+			return b, "!encoder-result-changed-by-a-later-encode: " + x(string(h.copy)) + " became " + x(string(h.b))
+		}
+	}
+	held = append(held, heldEnc{b, append([]byte(nil), b...)})
+	if len(held) > 8 {
+		held = held[1:]
+	}
+	return b, ""
+}
+
 var decoders = map[string]func([]byte) string{
-	"ppr": dppr, "ppr0": dppr0, "pr": dpr, "pr0": dpr0, "ar": dar, "ars": dars, "cpr": dcpr, "cps": dcps,
+	"ppr": dppr, "ppr0": dppr0, "pr": dpr, "prr": dprr, "pr0": dpr0, "ar": dar, "ars": dars, "cpr": dcpr, "cps": dcps,
 }
 
 func main() {
@@ -293,7 +327,10 @@ func main() {
 		case 'd':
 			return dec(pay(a[1]))
 		case 'e':
-			b := encode(msg, a[1:])
+			b, bad := encodeHeld(msg, a[1:])
+			if bad != "" {
+				return bad
+			}
 			if msg == "cpr" {
 				i := bytes.IndexByte(b, '\n')
 				if i < 0 {
@@ -303,7 +340,11 @@ func main() {
 			}
 			return genericSorted(b)
 		case 'r':
-			return dec(encode(msg, a[1:]))
+			b, bad := encodeHeld(msg, a[1:])
+			if bad != "" {
+				return bad
+			}
+			return dec(b)
 		}
 		return "!badcase"
 	})
